@@ -482,6 +482,11 @@ func checkItCase(c itCase, rec *Rec) error {
 		rec.NonTrivial(true)
 		arg := cp(c.M)
 		it := itertools.Product(arg...)
+		// the constructor copies its argument ("in case it changes", says the source): later writes by the caller are invisible
+		for i := range arg {
+			arg[i] = 1 + (arg[i]+2)%3
+		}
+		arg = cp(c.M)
 		name := fmt.Sprintf("Product(%v)", c.M)
 		err := drive(name, it.Next, func() any { return cp(it.Value()) }, toAny(want), false, true)
 		if err == nil && !eqInts(arg, c.M) {
@@ -497,6 +502,7 @@ func checkItCase(c itCase, rec *Rec) error {
 			}
 		}
 		name := fmt.Sprintf("RestrictedPrefixProduct(%s seed=%d d=%d, %v)", c.Pred, c.Seed, c.D, c.M)
+		dims := cp(c.M)
 		var bad error
 		it := itertools.RestrictedPrefixProduct(func(p []int) bool {
 			if len(p) < 1 || len(p) > len(c.M) {
@@ -510,7 +516,11 @@ func checkItCase(c itCase, rec *Rec) error {
 				}
 			}
 			return pred(p)
-		}, c.M...)
+		}, dims...)
+		// as for Product: the factor list is copied at construction, later writes by the caller are invisible
+		for i := range dims {
+			dims[i] = 1 + (dims[i]+2)%3
+		}
 		rec.NonTrivial(len(want) >= 1 && len(want) < len(allProducts(c.M)))
 		err := drive(name, it.Next, func() any { return cp(it.Value()) }, toAny(want), false, false)
 		if bad != nil {
